@@ -80,7 +80,11 @@ func FromPlain(content []byte) string {
 			break
 		}
 		if utf8.RuneStart(b) {
-			content = content[:i]
+			// Drop the last rune only when it is cut short, not when it is
+			// complete or not an UTF-8 sequence at all.
+			if !utf8.FullRune(content[i:]) {
+				content = content[:i]
+			}
 			break
 		}
 	}
